@@ -161,12 +161,19 @@ def _completed_before_death(b0, dead_o, idx, nth):
     return False
 
 
-def pair_grouped(pipe, items, c):
-    """mux: plain source -> with_memory_store([group_by(x % c, P)])"""
-    gb = [G.op_group_by('modc', c, pipe)]
-    tr = M.run_src(gb, items)
-    head = MC.log_of(tr, [1, 1, 0])
-    tail = MC.log_of(tr, [1, 1, len(pipe)])
+def pair_grouped(pipe, items, c, nested=False):
+    """mux: plain source -> with_memory_store([group_by(x % c, P)]); nested: the groups are
+    groups of groups (group_by(x % 2, [group_by(x % 3, P)])): several group maps alive at once"""
+    if nested:
+        gb = [G.op_group_by('modc', 2, [G.op_group_by('modc', 3, pipe)])]
+        tr = M.run_src(gb, items)
+        head = MC.log_of(tr, [1, 1, 1, 1, 0])
+        tail = MC.log_of(tr, [1, 1, 1, 1, len(pipe)])
+    else:
+        gb = [G.op_group_by('modc', c, pipe)]
+        tr = M.run_src(gb, items)
+        head = MC.log_of(tr, [1, 1, 0])
+        tail = MC.log_of(tr, [1, 1, len(pipe)])
     groups = {}
     for e in head:
         if e['t'] == 'n':
@@ -239,7 +246,7 @@ def main(tier, replay):
         if ci % 3 == 2:
             c = rng.choice([2, 3])
             items = G.ints([rng.randint(0, 5) for _ in range(rng.randint(1, 12))])
-            tr, gs, died = pair_grouped(pipe, items, c)
+            tr, gs, died = pair_grouped(pipe, items, c, nested=(ci % 6 == 5))
             mode = 'grouped'
             groups = None
         else:
